@@ -190,6 +190,33 @@ static Neighbors knn(const Data& D, int k)
     return nb;
 }
 
+// wave 4: problems far above the small cases (N up to 60000 for the weight-matrix regions: a reserve() cap, a branch that only
+// switches at 2^22 triplets).  Exact k-NN is quadratic, so the neighbourhood of i is the window i+1 .. i+k (mod N) — the region
+// under test takes ANY neighbour lists —, and the N x N result is not densified: the result is a signature of the sparse
+// matrix (total nnz; per column: nnz, sum of the values, sum of value * (row + 1)), compared like any other sparse result.
+static const int BIG_N = 2000;
+static Neighbors window_neighbors(int N, int k)
+{
+    Neighbors nb(N);
+    for (int i = 0; i < N; i++)
+        for (int j = 1; j <= k; j++) nb[i].push_back((i + j) % N);
+    return nb;
+}
+static std::vector<double> signature(const SparseWeightMatrix& W)
+{
+    std::vector<double> r(1 + 3 * (size_t)W.cols(), 0.0);
+    r[0] = (double)W.nonZeros();
+    for (int c = 0; c < W.outerSize(); ++c)
+        for (SparseWeightMatrix::InnerIterator it(W, c); it; ++it)
+        {
+            size_t o = 1 + 3 * (size_t)it.col();
+            r[o] += 1.0;
+            r[o + 1] += it.value();
+            r[o + 2] += it.value() * (double)(it.row() % 16 + 1);
+        }
+    return r;
+}
+
 static std::vector<double> flat(const DenseMatrix& M)
 {
     std::vector<double> r((size_t)M.rows() * M.cols());
@@ -231,16 +258,19 @@ static std::vector<double> run_region(const std::string& region, const Data& D, 
     if (region == "diff") return flat(compute_diffusion_matrix(idx.begin(), idx.end(), cb, 4.0));
     if (region == "klle")
     {
+        if (D.N > BIG_N) return signature(linear_weight_matrix(idx.begin(), idx.end(), window_neighbors(D.N, k), cb, 1e-3, 1e-3));
         Neighbors nb = knn(D, k);
         return flat(DenseMatrix(linear_weight_matrix(idx.begin(), idx.end(), nb, cb, 1e-3, 1e-3)));
     }
     if (region == "kltsa")
     {
+        if (D.N > BIG_N) return signature(tangent_weight_matrix(idx.begin(), idx.end(), window_neighbors(D.N, k), cb, d, 1e-3));
         Neighbors nb = knn(D, k);
         return flat(DenseMatrix(tangent_weight_matrix(idx.begin(), idx.end(), nb, cb, d, 1e-3)));
     }
     if (region == "hlle")
     {
+        if (D.N > BIG_N) return signature(hessian_weight_matrix(idx.begin(), idx.end(), window_neighbors(D.N, k), cb, d));
         Neighbors nb = knn(D, k);
         return flat(DenseMatrix(hessian_weight_matrix(idx.begin(), idx.end(), nb, cb, d)));
     }
@@ -399,7 +429,8 @@ int main()
         }
         printf("C %ld\n", id);
         fflush(stdout);
-        if (N < 1 || N > 4000 || dim < 1 || dim > 16 || k < 1 || k >= std::max(N, 2) || d < 1 || d > 6 || L < 1 || L > N)
+        const bool weight_region = (region == "klle" || region == "kltsa" || region == "hlle");
+        if (N < 1 || N > (weight_region ? 60000 : 4000) || dim < 1 || dim > 16 || k < 1 || k >= std::max(N, 2) || d < 1 || d > 6 || L < 1 || L > N)
         {
             printf("BAD %ld\nE %ld\n", id, id);
             continue;
